@@ -47,7 +47,7 @@ def build_harness():
     hdir = os.path.join(ROOT, "harness")
     # go.sum of the harness module = union of the repository modules' sums (offline, no proxy)
     sums = set()
-    for m in ("module", "minter-connector", "keys-generator"):
+    for m in ("module", "minter-connector", "keys-generator", "oracle"):
         p = os.path.join(REPO, m, "go.sum")
         if os.path.exists(p):
             sums.update(open(p).read().splitlines())
@@ -56,17 +56,18 @@ def build_harness():
         sums.update(open(keep).read().splitlines())
     with open(os.path.join(hdir, "go.sum"), "w") as f:
         f.write("\n".join(sorted(s for s in sums if s.strip())) + "\n")
+    # programs of the repository that live in package main (connector relay loop, oracle service, key tool) are copied
+    # into generated packages FIRST: everything built below must see the current working tree
+    import genconn
+    try:
+        genconn.generate()
+    except Exception as e:
+        raise Infra("cannot generate the packages from the repository's main.go files: %s" % e)
     binp = os.path.join(WORK, "bin", "vh")
     p, dt = run(["go", "build", "-tags", "verif", "-o", binp, "./cmd/vh"], 900, env=GOENV, cwd=hdir)
     if p.returncode != 0:
         sys.stdout.write(p.stdout.decode(errors="replace")[-4000:])
         raise Infra("harness build failed (does /repo still compile with -tags verif?)")
-    # the Minter-loop driver: the connector's main.go is copied into a generated package at every build
-    import genconn
-    try:
-        genconn.generate()
-    except Exception as e:
-        raise Infra("cannot generate the connector package from main.go: %s" % e)
     p, dt2 = run(["go", "build", "-tags", "verif", "-o", os.path.join(WORK, "bin", "vhconn"), "./cmd/vhconn"], 900, env=GOENV, cwd=hdir)
     if p.returncode != 0:
         sys.stdout.write(p.stdout.decode(errors="replace")[-4000:])
@@ -372,7 +373,7 @@ PROPS = {
                       "ConnValsets/ok": 10, "ConnBatches/ok": 3, "ConnScan/ok": 10}),
     "C18": dict(mc=[ORACLE_MC], sim=[ORACLE_SIM], static=["oracle*.ndjson"], trace=("TraceOracle.tla", "TraceOracle.cfg"),
                 watch=["C18:", "conf:or"],
-                need={"Price/ok": 10, "Price/err": 2, "Holders/ok": 5, "PricesChanged": 2, "HoldersChanged": 1, "AttWithSeveralVoters": 5}),
+                need={"Price/ok": 10, "Price/err": 2, "Holders/ok": 5, "PricesChanged": 2, "HoldersChanged": 1, "AttWithSeveralVoters": 5, "OrcRelay/ok": 10}),
     "C19": dict(mc=[], sim=[FEES_SIM], static=["fees*.ndjson", "c05_zero_share.ndjson"],
                 watch=["C19:", "conf:fr", "conf:bal", "conf:pool"],
                 need={"ExtExec/ok": 3, "Claim/ok": 9, "End/ok": 5}),
@@ -658,7 +659,9 @@ def check_c20(prop, tier, seed, replay_file=None):
     os.makedirs(outdir)
     dst = os.path.join(workdir, "Connector.cfg")
     subst = {"Dev": dev_value(dev)}
-    subst.update({"MaxBlocks": "2", "MaxTx": "2"} if tier == "quick" else {"MaxBlocks": "3", "MaxTx": "2"})
+    # thorough: one block more, over the three classes that move the cursors differently (4 classes x 3 blocks x 2 txs: 9 724 histories,
+    # whose vectors TLC does not write out within an hour)
+    subst.update({"MaxBlocks": "2", "MaxTx": "2"} if tier == "quick" else {"MaxBlocks": "3", "MaxTx": "2", "Kinds": '{"D", "I", "B"}'})
     tlc_cfg(os.path.join(SPEC, "Connector.cfg"), dst, subst)
     rc, txt, dt, out = tlc("Connector.tla", dst, workdir, 3000, env={"VERIF_OUT": outdir, "JAVA_TOOL_OPTIONS": "-Xmx8g -Xss64m"}, workers="8")
     gen, dist = parse_counts(txt)
